@@ -24,9 +24,9 @@ RULE = ("One case = one whole event history applied to a fresh FSM (kinds fsm / 
         "class good/nak/rej/both/malformed is chosen per Configure-Request, protocol LCP / IPCP; kinds lcp/ipcp/ipv6cp: "
         "the real handlers with payloads of known class), restart timer fired only by the explicit T event. Exhaustive part: ~30 canonical "
         "prefixes per configuration (maxConf/maxTerm in {default 10/2, 2/1, 0/0, 1/2, 3/0}) reaching every state with "
-        "restart counter zero / positive, each followed by every event of a 53-event alphabet (5 administrative events, "
+        "restart counter zero / positive, each followed by every event of an 81-event alphabet (5 administrative events, "
         "timer, codes 0-14 and 255 x identifier current/next/previous/fixed x answer class x data length) and, for two "
-        "configurations, by every pair of events from a 21-event alphabet; all sequences of length <= 3 (thorough: 4) "
+        "configurations, by every pair of events from a 22-event alphabet; all sequences of length <= 3 (thorough: 4) "
         "from Initial; random weighted walks of length 60 (thorough 80). Compared exactly after every event: state, "
         "restartCount, timer armed, lastReqID, id, failCount, and the list of sends (code, id, payload class) and "
         "layer callbacks, the CONTENT of every Configure-Request sent (predicted from the model of the real handlers' "
